@@ -331,6 +331,31 @@ def run_sharded(ctx, fn, payload=None, nshards=None):
     return f
 
 
+def describe_scopes(scopes, legend):
+    """Evidence text for a list of (n, formula-scope key, structure stride) triples, generated from the
+    list itself (hand-written descriptions go stale): one line per formula scope; 'name/k' = every k-th
+    formula of scope 'name'."""
+    def ordinal(k):
+        return '%d%s' % (k, 'th' if 10 <= k % 100 <= 20 else {1: 'st', 2: 'nd', 3: 'rd'}.get(k % 10, 'th'))
+    by = {}
+    order = []
+    for (n, key, stride) in scopes:
+        key = str(key)
+        base, _, fs = key.partition('/')
+        # complete and sampled parts of one formula scope go to separate lines (the evidence lists them apart)
+        k = (base, int(fs) if fs else 1, stride == 1)
+        if k not in by:
+            by[k] = []
+            order.append(k)
+        by[k].append('S(%d)' % n if stride == 1 else 'every %s of S(%d)' % (ordinal(stride), n))
+    out = []
+    for (base, fs, whole) in order:
+        what = legend.get(base, 'formulas with <= %s operators' % base if base.isdigit() else base)
+        every = '' if fs == 1 else 'every %s of: ' % ordinal(fs)
+        out.append('%s x %s%s' % (' + '.join(by[(base, fs, whole)]), every, what))
+    return out
+
+
 def run_random(ctx, fn, n_quick, n_thorough, shards_quick=8, shards_thorough=16, extra=None):
     """Run a module-level `fn(stats, shard, nshards, payload)` that drives Hypothesis with
     hyp_run(payload['seed'] * 1000 + shard, ..., payload['n']) in several processes."""
